@@ -1,6 +1,6 @@
 (* Property C18 — audio paths are stored relative to the audio directory and relocate on load. *)
 From Coq Require Import ZArith List Bool.
-From SE Require Import Base.Res Aoef.Paths Aoef.PathsProofs.
+From SE Require Import Base.Res Gen.Prelude Gen.Source Gen.SrcPaths Aoef.Paths Aoef.PathsProofs.
 Import ListNotations.
 
 (* every recording path in the document is the path relative to the directory *)
@@ -37,3 +37,33 @@ Example C18_example :
   /\ relocated (Some [0; 1; 2]%Z) (Some [0; 7]%Z) [[0; 1; 2; 3; 4]; [0; 1; 9; 5]]%Z = Err EValue.
 Proof. exact relocate_example. Qed.
 Print Assumptions C18_example.
+
+(* ---- on the definitions read from the source (Gen/Source.v, regenerated on every run): the statements of
+   RecordingAdapter.assemble_aoef / assemble_soundevent that compute the `path` handed to the returned object ---- *)
+Theorem C18_src_save_path : forall dir p, Source.recording_save_path dir p = Paths.save_path dir p.
+Proof. exact src_save_path. Qed.
+Print Assumptions C18_src_save_path.
+
+Theorem C18_src_load_path : forall dir q, Source.recording_load_path dir q = Ok (Paths.load_path dir q).
+Proof. exact src_load_path. Qed.
+Print Assumptions C18_src_load_path.
+
+Theorem C18_src_relocation : forall a b x, is_abs x = false ->
+  bind (Source.recording_save_path (Some a) (a ++ x)) (Source.recording_load_path (Some b)) = Ok (b ++ x).
+Proof. exact src_relocation. Qed.
+Print Assumptions C18_src_relocation.
+
+Theorem C18_src_outside_fails : forall a p, strip a p = None -> Source.recording_save_path (Some a) p = Err EValue.
+Proof. exact src_outside_fails. Qed.
+Print Assumptions C18_src_outside_fails.
+
+Theorem C18_src_no_dir : forall p, Source.recording_save_path None p = Ok p /\ Source.recording_load_path None p = Ok p.
+Proof. exact src_no_dir. Qed.
+Print Assumptions C18_src_no_dir.
+
+Example C18_src_ex :
+  Source.recording_save_path (Some [0; 5; 6]%Z) [0; 5; 6; 7; 8]%Z = Ok [7; 8]%Z /\
+  Source.recording_save_path (Some [0; 5; 6]%Z) [0; 5; 9; 8]%Z = Err EValue /\
+  Source.recording_load_path (Some [0; 3]%Z) [7; 8]%Z = Ok [0; 3; 7; 8]%Z.
+Proof. exact src_paths_ex. Qed.
+Print Assumptions C18_src_ex.
